@@ -105,6 +105,7 @@ type FnTrans struct {
 	sitesMatched map[*SiteSpec]bool
 	contractErrors []string
 	assumpTerms []string
+	knownRefs map[string]bool
 	constArrs map[string]string
 	globalsUsed map[string]bool
 }
@@ -976,6 +977,7 @@ func (t *FnTrans) setVal(v ssa.Value, x Val) {
 	if x.T == nil {
 		x.T = v.Type()
 	}
+	defer func() { t.noteRef(t.vals[v]) }()
 	// name scalar terms so that queries stay small
 	if x.K == VScalar {
 		if s := t.mode.scalarSort(v.Type()); s != "" && strings.Contains(x.S, " ") {
@@ -1095,6 +1097,7 @@ func (t *FnTrans) Translate() {
 	for _, p := range fn.Params {
 		v := t.havocParam(p)
 		t.vals[p] = v
+		t.noteRef(v)
 		t.params[p.Name()] = v
 	}
 	for _, fv := range fn.FreeVars {
